@@ -33,7 +33,7 @@ func mutateText(t string, rng *Rng, thorough bool) []string {
 	subs := []string{"\xc3\xa9", "{", "*", " ", "\n", "\xff", ""}
 	n := 8
 	if thorough {
-		n = 60
+		n = 24
 	}
 	for j := 0; j < n && len(t) > 6; j++ {
 		i := 6 + rng.Intn(len(t)-6)
@@ -135,7 +135,7 @@ func init() {
 			sort.Strings(tl)
 			budget := 40
 			if thorough {
-				budget = 1500
+				budget = 400
 			}
 			stride := len(tl)/budget + 1
 			for k, t := range tl {
@@ -145,6 +145,35 @@ func init() {
 					for _, mt := range mutateText(t, rng, thorough) {
 						res, _ := tt.Parse(mt)
 						o.Case("tag:parse", res, tt.Name, mt)
+					}
+				}
+			}
+			// over-width elements made of bytes that are not character starts (continuation bytes), of
+			// invalid bytes and of multi-byte characters: each delimited element of a few texts in turn
+			nsub := 3
+			if thorough {
+				nsub = 25
+			}
+			done := 0
+			for _, t := range tl {
+				if done >= nsub || !strings.Contains(t, "*") || len(t) < 7 {
+					continue
+				}
+				done++
+				segs := strings.Split(t[6:], "*")
+				for j := range segs {
+					for _, fill := range []string{"\x80", "\xbf", "\xff", "\xc3\xa9", "\xf0\x9f\x98\x80", "\x80A"} {
+						for _, extra := range []int{0, 1, 2, 40} {
+							n := len(segs[j]) + extra
+							if n == 0 {
+								n = 1
+							}
+							alt := append([]string{}, segs...)
+							alt[j] = strings.Repeat(fill, n)
+							mt := t[:6] + strings.Join(alt, "*")
+							res, _ := tt.Parse(mt)
+							o.Case("tag:parse", res, tt.Name, mt)
+						}
 					}
 				}
 			}
